@@ -768,6 +768,22 @@ def mon_c07(spec, run):
     for s, o in state.items():
         if o["id"] != s:
             bad.append(("identity", f"accessor {s.lower()} holds an object with id {o['id']}"))
+    # a synthetic receiver that gives a value in answer to a GET of the function itself or of the multi-value query carrying it (receiver-side
+    # facts frozen in device_facts.json) must have been asked one of the two during start-up
+    table = spec.get("device", {}).get("table") or {}
+    if table and spec["device"].get("type", "scripted") == "scripted":
+        from .gen import device_facts
+        facts = device_facts()
+        asked = {bytes.fromhex(e["data"])[:-2].decode("utf-8", "replace") for e in tr if e["k"] == "write"}
+        for sname in state:
+            for fn, fact in facts.get(sname, {}).items():
+                if not fact["asked"] or fn not in spec.get("readable", {}).get(sname, []) or (sname == "SYS" and fn in ("MODELNAME", "VERSION")):
+                    continue
+                keys = [f"@{sname}:{fn}=?"] + ([f"@{sname}:{fact['group']}=?"] if fact["group"] else [])
+                gives = [k for k in keys if any(l.startswith(f"@{sname}:{fn}=") for l in (table.get(k) or []))]
+                if gives and not any(k in asked for k in gives):
+                    bad.append(("never-asked", f"the receiver gives {sname}.{fn} in answer to {gives[0]!r}, but start-up never asked for it: the attribute cannot be populated"))
+                    return bad
     barriers = _stage_barriers(tr)
     order = ["SYS"] + sorted(x for x in want if x != "SYS")
     for s, o in state.items():
